@@ -38,6 +38,7 @@ def handleRewrite (args : List String) : String :=
 def showBranch : Branch → String
   | .notNeeded => "notneeded"
   | .noExt => "noext"
+  | .isFile => "isfile"
   | .noEntry => "noentry"
   | .single => "single"
   | .firstMatch n => s!"match{n}"
@@ -53,7 +54,7 @@ def handleInfo (args : List String) : String :=
     let ftp := fileToPaths fs ord cfg keys
     let per := es.map fun kc =>
       let rel := keyPath cfg kc.1
-      s!"{showBranch (branchOf nd ftp rel)}:p{toHex (partialStep nd ftp rel)}"
+      s!"{showBranch (branchOf nd ftp rel (namesFile fs cfg.sourceDir rel))}:p{toHex (partialStepF fs cfg.sourceDir nd ftp rel)}"
     joinWith " " (s!"needed={bit nd}" :: s!"walkpanic={bit (walkPanics cfg fs keys)}" :: per)
   | none => "bad-op"
 
